@@ -452,14 +452,14 @@ def instr_shared(ctx, reg):
 
 consts = st.sampled_from([1, 2, "v", "w", 7, "x_y"])
 templates = st.sampled_from(["{{a}}_x", "{{b}}", "p{{c.d}}", "{{a}}{{b}}", "{{c.e}}-{{a}}", "{{c.d}}"])
-name_templates = st.sampled_from(["{{a}}_{{b}}", "{{a}}", "{{c.d}}", "n{{b}}", "{{c.e}}{{a}}"])
+name_templates = st.sampled_from(["{{a}}_{{b}}", "{{a}}", "{{a}}", "x{{a}}", "{{c.d}}", "n{{b}}", "{{b}}", "{{c.e}}{{a}}"])
 
 
 def leaf():
     return st.one_of(
         st.builds(lambda k, v: ["set", k, v], st.sampled_from(KEYS + ["c"]), consts),
         st.builds(lambda k, v: ["set", k, v], st.sampled_from(KEYS), consts),
-        st.builds(lambda k, v: ["set", k, v], st.sampled_from(KEYS), consts),
+        st.builds(lambda k, v: ["set", k, v], st.sampled_from(["a", "b", "a", "c.d"]), consts),
         st.builds(lambda k, t: ["setf", k, t], st.sampled_from(KEYS), templates),
         st.just(["store"]), st.just(["store"]), st.just(["ucfs"]),
         st.builds(lambda t: ["mkfn", t], name_templates),
